@@ -229,7 +229,12 @@ def ite_conditions(ts, limit=64):
     return conds
 
 
-MAX_SPLIT = 10
+MAX_SPLIT = 8
+MAX_LEAVES = 48
+
+
+class SplitBudget(Exception):
+    pass
 
 
 def _factors(t):
@@ -283,6 +288,8 @@ def split_equation(a, b, dens, fc, dc):
     def go(a, b, lits, depth):
         if a is b:
             return
+        if len(out) > MAX_LEAVES:
+            raise SplitBudget()
         conds = ite_conditions([a, b], limit=MAX_SPLIT + 1)
         if not conds or depth >= MAX_SPLIT or len(conds) > MAX_SPLIT:
             e = leaf(a, b)
